@@ -142,7 +142,7 @@ func tumbleCase(r *lib.Rng, cf *lib.CaseFile) {
 func rangeCase(a, b int64, cf *lib.CaseFile) {
 	kind, out, note := runGuarded(
 		func() (execution.Node, error) { return c18kit.Range(a, b) },
-		func(n execution.Node) ([]lib.Event, error, interface{}) { return lib.RunNode(n) })
+		func(n execution.Node) ([]lib.Event, error, interface{}) { return c18kit.RunLimited(n, nil, 1000) }) // every case has < 1000 values
 	js := map[string]interface{}{"tvf": "range", "start": a, "end": b, "kind": kind, "output": c18kit.EventsJSON(out), "note": note}
 	cf.Add(fmt.Sprintf("CRange %s %s %d %s", lib.Z(a), lib.Z(b), kind, c18kit.CoqEvents(out)), js, kind == 0 && b-a >= 2 && a > math.MinInt64/2 && b < math.MaxInt64/2)
 	cf.Count("range")
@@ -179,14 +179,11 @@ func pollCase(r *lib.Rng, cf *lib.CaseFile) {
 		jsRounds = append(jsRounds, c18kit.EventsJSON(evs))
 	}
 	var own []int // indices in out of poll's own watermarks
-	var outRef *[]lib.Event
 	kind, out, note := runGuarded(
 		func() (execution.Node, error) {
 			return c18kit.Poll(src, nfields, time.Duration(20+r.Intn(100))*time.Microsecond)
 		},
 		func(n execution.Node) ([]lib.Event, error, interface{}) {
-			var o []lib.Event
-			outRef = &o
 			o, e, p := c18kit.RunRecording(n, func(i int) {
 				if src.Returned {
 					src.Returned = false
@@ -195,7 +192,6 @@ func pollCase(r *lib.Rng, cf *lib.CaseFile) {
 			})
 			return o, e, p
 		})
-	_ = outRef
 	// the clock as observed: the watermark poll sends at the end of each round; for the last (failing)
 	// round the event time of the retractions it emits (when there are any)
 	var nows []string
@@ -215,8 +211,24 @@ func pollCase(r *lib.Rng, cf *lib.CaseFile) {
 	}
 	nows = append(nows, c18kit.NsExact(final))
 	js := map[string]interface{}{"tvf": "poll", "rounds": jsRounds, "clock": nows, "kind": kind, "output": c18kit.EventsJSON(out), "note": note}
-	cf.Add(fmt.Sprintf("CPoll %s %s %d %s", lib.CoqList(nows), lib.CoqList(coqRounds), kind, c18kit.CoqEvents(out)), js,
+	idx := cf.Add(fmt.Sprintf("CPoll %s %s %d %s", lib.CoqList(nows), lib.CoqList(coqRounds), kind, c18kit.CoqEvents(out)), js,
 		kind == 1 && rounds >= 2 && !withWM && len(out) > rounds+1)
+	// the watermark that ends round k is the instant at which round k began: read after the source's run
+	// k-1 ended and before its run k started (compared on the monotonic clock all these readings carry)
+	if kind != 2 {
+		if len(own) != rounds {
+			cf.Violation(idx, fmt.Sprintf("poll sent %d watermarks of its own in %d rounds", len(own), rounds), "")
+		}
+		for k, i := range own {
+			w := out[i].WM
+			if k < len(src.Starts) && w.After(src.Starts[k]) {
+				cf.Violation(idx, fmt.Sprintf("poll's watermark of round %d is later than the start of that round's source run", k), "")
+			}
+			if k > 0 && k-1 < len(src.Ends) && w.Before(src.Ends[k-1]) {
+				cf.Violation(idx, fmt.Sprintf("poll's watermark of round %d is earlier than the end of round %d", k, k-1), "")
+			}
+		}
+	}
 	cf.Count("poll")
 	cf.Count(fmt.Sprintf("poll_rounds_%d", rounds))
 	cf.Count(fmt.Sprintf("poll_kind_%d", kind))
